@@ -353,6 +353,16 @@ theorem mainModel_never_panics (o : Opt) (f : List Char) (hf : boundsListOfStrin
   ⟨Run.Safe.ne_panic (mainModel_total o f hf hre M segs lim),
    Run.Safe.ne_hang (mainModel_total o f hf hre M segs lim)⟩
 
+/-- the hypotheses are satisfiable: `-f 2:` with the default delimiter is an instance -/
+def c12Opt : Opt :=
+  { delimiter := [9], bounds := ⟨[.bound { l := .some 2, r := .cont, isLast := true }], .cont⟩ }
+
+example : boundsListOfString ['2', ':'] = .ok c12Opt.bounds := by decide
+
+example (M : Bool) (segs : List Bytes) (lim : Option Nat) :
+    (mainModel c12Opt M segs lim).status = .ok ∨ (mainModel c12Opt M segs lim).status = .fail :=
+  mainModel_total c12Opt ['2', ':'] (by decide) (Or.inl rfl) M segs lim
+
 /-! ## 3. time and memory do not grow with the numeric value of an index -/
 
 theorem rangeEnd_le (r : Side) (n : Nat) (e : Int) (h : rangeEnd r n = some e) : e ≤ n := by
